@@ -28,7 +28,8 @@ class C08(Spec):
             'values compared to solver tolerance), given through add_output, through System.set_output_solver_options '
             '(on the component, on an ancestor group or on the model with the relative path) or both, including '
             'models whose ONLY scaling is one ref0 (scalar or array) set by set_output_solver_options; one sampled '
-            'solver configuration per spec; a case is a distinct spec')
+            'solver configuration per spec (30 % of the feed-forward ones with approx_totals on the first-level groups); a case '
+            'is a distinct spec')
     assumptions = ['convergence-rate differences are not observed; coupled specs are compared at 1e-7 relative '
                    '(the scaled run converges on scaled residual norms), feed-forward ones exactly or at 1e-9',
                    'bounds / line searches under scaling belong to C10']
@@ -44,6 +45,9 @@ class C08(Spec):
                    'nl': rng.choice(['nlbgs', 'newton']) if cpl else 'nlbgs', 'mf': rng.random() < 0.7}
             if cfg['lin'] in ('runonce', 'lbgs'):
                 cfg['jac'] = None
+            if not cpl and cfg['jac'] is None and rng.random() < 0.3:
+                cfg['approx'] = True      # first-level groups become semi-total finite-difference groups
+                cfg['mf'] = False         # (approx groups with matrix-free components: see props/C01/repro_approx_observations.py)
             scaled = []
             for j in range(nvar):
                 if j % 2 == 0:
@@ -55,7 +59,7 @@ class C08(Spec):
                 scaled.append({'pow2': pow2, 'route': route, 'only': only,
                                'spec': sg.with_scaling(spec, rng, pow2=pow2, route=route, only=only)})
             cases.append({'spec': spec, 'cfg': cfg, 'scaled': scaled,
-                          'kind': spec_kind(spec) + ':' + cfg['lin'] + ':' + '/'.join('%s%s' % (v['route'], '-only-' + v['only'] if v['only'] else '') for v in scaled)})
+                          'kind': spec_kind(spec) + ':' + cfg['lin'] + (':approx_totals' if cfg.get('approx') else '') + ':' + '/'.join('%s%s' % (v['route'], '-only-' + v['only'] if v['only'] else '') for v in scaled)})
         return cases
 
     def search_gen(self, tier, rng):
